@@ -17,6 +17,7 @@ the provenance class of its path argument).
 * `C10_slash_never_matches`  names containing `/` (in particular every rewritten `:`/`\`) open nothing
 * `C10_companion_flt_partial/_full/_counterexample`, `C10_companion_mfp`, `C10_companion_none`   the `dirname+basename+suffix` sites
 * `C10_exec`, `C10_exec_only_for_paths`, `C10_argv_single_argument`   helper programs
+* `C10_history_inv`, `C10_history_fields`, `C10_history_stream_loads`   sequences of load attempts on one context
 * `C10_sites_guarded`, `C10_fields_guarded`, `C10_argv_tie`, `C10_path_buffers_automatic`   the call-site premise, by `decide` over the generated table
 -/
 namespace Xmp.PathSafe
@@ -398,6 +399,61 @@ example : decrunchDecision (sigRar ++ List.replicate 100 7) false (some (ascii "
     .external (unrarArgv (ascii "a b;$(id).rar")) := by decide
 set_option maxRecDepth 8000 in
 example : decrunchDecision (sigMO3 ++ List.replicate 100 7) false none = .skippedExternal := by decide
+
+/-! ## histories on one context -/
+
+/-- the defensive invariant of src/load.c: an unloaded context remembers no directory -/
+def CtxInv (c : LoadCtx) : Prop := c.loaded = false → c.dir = none ∧ c.base = none
+
+theorem loadStep_inv (c : LoadCtx) (e : Entry) (o : Outcome) (h : CtxInv c) : CtxInv (loadStep c e o).2 := by
+  cases o <;> simp [loadStep, releaseCtx, CtxInv] <;> exact h
+
+theorem histStep_inv (c : LoadCtx) (op : HistOp) (h : CtxInv c) : CtxInv (histStep c op) := by
+  cases op with
+  | load e o => exact loadStep_inv c e o h
+  | release => simp [histStep, releaseCtx, CtxInv]
+  | play => exact h
+
+/-- after any sequence of load attempts (through any entry point, with any outcome), releases and
+player runs, a context that holds no module holds no directory either -/
+theorem C10_history_inv (h : List HistOp) : CtxInv (runHist {} h) := by
+  have : ∀ (l : List HistOp) (c : LoadCtx), CtxInv c → CtxInv (runHist c l) := by
+    intro l
+    induction l with
+    | nil => intro c hc; exact hc
+    | cons op rest ih => intro c hc; exact ih _ (histStep_inv c op hc)
+  exact this h {} (by simp [CtxInv])
+
+/-- **The directory a load may open from depends only on that load's own entry point and
+path**: whatever happened on the context before (path loads that succeeded, were refused as
+not-a-module, failed to depack or to load; memory / FILE / callback loads; releases or none),
+the `dirname` / `basename` the format loaders see are those of the path given to *this* call,
+and none at all for a memory, FILE or callback load. -/
+theorem C10_history_fields (h : List HistOp) (e : Entry) (o : Outcome) (seen : Option Bytes × Option Bytes)
+    (hs : (loadStep (runHist {} h) e o).1 = some seen) :
+    seen = (e.modulePath.map getDirname, e.modulePath.map getBasename) := by
+  generalize runHist {} h = c at hs
+  cases o <;> simp [loadStep] at hs <;> exact hs.symm
+
+/-- hence a non-path load has no module directory, after any history: the song-only loaders can
+only reach the configured instrument path, and no Startrekker / Magnetic Fields companion is tried -/
+theorem C10_history_stream_loads (h : List HistOp) (e : Entry) (o : Outcome) (seen : Option Bytes × Option Bytes)
+    (he : ∀ p, e ≠ .path p) (hs : (loadStep (runHist {} h) e o).1 = some seen) :
+    seen = (none, none) ∧ fltCompanions e.modulePath = [] ∧ mfpCompanions e.modulePath = [] := by
+  have := C10_history_fields h e o seen hs
+  have hc := C10_companion_none e he
+  cases e with
+  | path p => exact absurd rfl (he p)
+  | file => exact ⟨this, hc⟩
+  | memory => exact ⟨this, hc⟩
+  | callbacks => exact ⟨this, hc⟩
+
+/-- non-vacuous: the history of the seeded defect C10-m11 — a path load refused as "not a module",
+then a callback load — leaves nothing behind for the second load -/
+example : (loadStep (runHist {} [.load (.path (ascii "mods/notes.txt")) .formatError]) .callbacks .ok).1 = some (none, none) := by
+  decide
+example : (loadStep (runHist {} [.load (.path (ascii "a/x.mod")) .ok, .play]) (.path (ascii "b/y.mod")) .ok).1
+    = some (some (ascii "b/"), some (ascii "y.mod")) := by decide
 
 /-! ## the call-site premise, over the generated table -/
 
